@@ -6,6 +6,7 @@ import CimbaModel.Sim.Basic
 import CimbaModel.HashHeap.Orders
 import CimbaModel.Sim.S2HistAll
 import CimbaModel.Sim.S2TimeAvg
+import CimbaModel.Sim.S2GrowRes
 
 namespace CimbaModel.Props.C14
 open CimbaModel CimbaModel.Sim CimbaModel.Event CimbaModel.Generated CimbaModel.HashHeap.SpecOrders
@@ -134,6 +135,35 @@ theorem pool_change_is_recorded {w w' : World} (hi : HistInv w) (hi' : HistInv w
   RecOK.change_recorded poolOps (hi.2.2.1 pl x hx) (hi'.2.2.1 pl x' hx') hr hr' (by
     show (x.inUse : Int) ≠ (x'.inUse : Int)
     omega)
+
+/-- **histories only grow, and only by samples stamped with the current time**: across one dispatched event every
+    recordable object keeps its place, and its history afterwards is its history before followed by samples whose time is
+    the time of that event (`w'.now`).  No sample is ever altered or removed.  Together with `history_invariant_*` (the last
+    sample carries the current value whenever recording is on) this is the statement that the step function defined by
+    the history is the true trajectory: between events nothing changes, and at each event the history is extended up to
+    the value the object has when the event is over. -/
+theorem history_only_grows {w w' : World} (hd : dispatch w = some w') :
+    (∀ (i : Nat) (x : Res), w.res[i]? = some x → ∃ x', w'.res[i]? = some x' ∧
+      ∃ ext, x'.hist.toList = x.hist.toList ++ ext ∧ ∀ s ∈ ext, s.2 = w'.now) ∧
+    (∀ (i : Nat) (x : Pool), w.pools[i]? = some x → ∃ x', w'.pools[i]? = some x' ∧
+      ∃ ext, x'.hist.toList = x.hist.toList ++ ext ∧ ∀ s ∈ ext, s.2 = w'.now) ∧
+    (∀ (i : Nat) (x : Buf), w.bufs[i]? = some x → ∃ x', w'.bufs[i]? = some x' ∧
+      ∃ ext, x'.hist.toList = x.hist.toList ++ ext ∧ ∀ s ∈ ext, s.2 = w'.now) ∧
+    (∀ (i : Nat) (x : OQ), w.oqs[i]? = some x → ∃ x', w'.oqs[i]? = some x' ∧
+      ∃ ext, x'.hist.toList = x.hist.toList ++ ext ∧ ∀ s ∈ ext, s.2 = w'.now) ∧
+    (∀ (i : Nat) (x : PQ), w.pqs[i]? = some x → ∃ x', w'.pqs[i]? = some x' ∧
+      ∃ ext, x'.hist.toList = x.hist.toList ++ ext ∧ ∀ s ∈ ext, s.2 = w'.now) := by
+  cases hex : executeNext w.ev with
+  | none => unfold dispatch at hd; rw [hex] at hd; cases hd
+  | some r =>
+    obtain ⟨t, ev'⟩ := r
+    obtain ⟨⟨n1, g1⟩, ⟨_, g2⟩, ⟨_, g3⟩, ⟨_, g4⟩, ⟨_, g5⟩⟩ := dispatch_grows hex hd
+    refine ⟨fun i x hx => ?_, fun i x hx => ?_, fun i x hx => ?_, fun i x hx => ?_, fun i x hx => ?_⟩
+    · obtain ⟨x', hx', e⟩ := g1 i x hx; rw [n1]; exact ⟨x', hx', e⟩
+    · obtain ⟨x', hx', e⟩ := g2 i x hx; rw [n1]; exact ⟨x', hx', e⟩
+    · obtain ⟨x', hx', e⟩ := g3 i x hx; rw [n1]; exact ⟨x', hx', e⟩
+    · obtain ⟨x', hx', e⟩ := g4 i x hx; rw [n1]; exact ⟨x', hx', e⟩
+    · obtain ⟨x', hx', e⟩ := g5 i x hx; rw [n1]; exact ⟨x', hx', e⟩
 
 /-! ### the time-weighted mean computed from a history is the exact time average -/
 
